@@ -309,3 +309,150 @@ func c01R31(ic *IC, r *Report) {
 	r.Check(len(bad) == 0, "R01.31", "_return/call-operands-not-copied-are-those-cfg-stores-directly", ic.pos(ret.Decl.Pos()), fmt.Sprintf("the %d condition(s) of _return eliding the copy of a call compare with the same result type as the %d direct-store conditions of cfg", nRet, nCfg),
 		strings.Join(bad, "; ")+": a call whose type is that of its own position but not of the first result gets a temporary slot in cfg and is not copied by _return - return label(i), total(s) in a func (string, int) returns (\"odd\", 0)")
 }
+
+func init() {
+	ruleText["R01.32"] = "cfg and the compiled-call generator agree on where the results of a call in a return statement go: callBin stores them by position in the result slots whenever directReturn holds, so in the case of cfg that installs callBin every result slot allocated for the call (n.findex = sc.add(...)) lies under the negation of a directReturn test - a temporary allocated while callBin writes the result slots is then copied over them by the return statement"
+}
+
+// c01R32: found through the round-6 report on C01 (D12). For a call of a func-typed struct field
+// cfg always allocated a temporary; callBin wrote the result slots, _return copied the (zero)
+// temporaries over them: return s.fn(x), s.fn(x+1) returned 0 0.
+func c01R32(ic *IC, r *Report) {
+	info := ic.Info
+	cfgFn := ic.fn(r, "Interpreter.cfg")
+	cb := ic.F["callBin"]
+	if cfgFn == nil || cb == nil || cb.Decl.Body == nil {
+		r.Errorf("R01.32: callBin not found")
+		return
+	}
+	// does callBin store by position under directReturn?
+	byPos := false
+	ast.Inspect(cb.Decl.Body, func(q ast.Node) bool {
+		cc, ok := q.(*ast.CaseClause)
+		if !ok {
+			return true
+		}
+		for _, e := range cc.List {
+			if len(callsIn(info, e, true, "interp.directReturn")) > 0 && len(callsIn(info, cc, true, "interp.childPos")) > 0 {
+				byPos = true
+			}
+		}
+		return true
+	})
+	if !byPos {
+		r.Pass("R01.32", "callBin/no-store-by-position", ic.pos(cb.Decl.Pos()), "callBin has no branch storing by position under directReturn: nothing to agree on")
+		return
+	}
+	genFld := ic.field("node", "gen")
+	findexFld := ic.field("node", "findex")
+	n := 0
+	ast.Inspect(cfgFn.Decl.Body, func(q ast.Node) bool {
+		cc, ok := q.(*ast.CaseClause)
+		if !ok {
+			return true
+		}
+		installs := false
+		for _, st := range cc.Body {
+			ast.Inspect(st, func(z ast.Node) bool {
+				if _, isCC := z.(*ast.CaseClause); isCC {
+					return false
+				}
+				if as, ok := z.(*ast.AssignStmt); ok && len(as.Lhs) == 1 && len(as.Rhs) == 1 && selField(info, as.Lhs[0]) == genFld {
+					if id := identOf(as.Rhs[0]); id != nil && info.Uses[id] == types.Object(cb.Obj) {
+						installs = true
+					}
+				}
+				return true
+			})
+		}
+		if !installs {
+			return true
+		}
+		ast.Inspect(cc, func(z ast.Node) bool {
+			as, ok := z.(*ast.AssignStmt)
+			if !ok || len(as.Lhs) != 1 || len(as.Rhs) != 1 || selField(info, as.Lhs[0]) != findexFld {
+				return true
+			}
+			c, ok := unparen(as.Rhs[0]).(*ast.CallExpr)
+			if !ok {
+				return true
+			}
+			if se, ok := unparen(c.Fun).(*ast.SelectorExpr); !ok || se.Sel.Name != "add" {
+				return true
+			}
+			n++
+			under := false
+			for _, g := range pathGuards(cc, as) {
+				if !g.want && len(callsIn(info, g.cond, true, "interp.directReturn")) > 0 {
+					under = true
+				}
+			}
+			r.Check(under, "R01.32", fmt.Sprintf("cfg/compiled-call/result-slot#%d/not-when-stored-by-position", n), ic.pos(as.Pos()), "the temporary is allocated only when directReturn does not hold",
+				"cfg allocates a temporary for the results of a compiled call ("+types.ExprString(as.Rhs[0])+") without excluding the calls of a return statement for which directReturn holds: callBin stores those results by position in the result slots, and the return statement then copies the untouched temporaries over them - type S struct{ fn func(int) int }; return s.fn(x), s.fn(x+1) returns 0 0")
+			return true
+		})
+		return true
+	})
+	if n == 0 {
+		r.Errorf("R01.32: no result slot allocation found in the case of cfg that installs callBin")
+	}
+}
+
+func init() {
+	ruleText["R01.33"] = "a return statement with one operand can set several results: in _return the case of a single operand has a run-time closure storing into the result slots by a variable index (a loop over the values of the call), not only into f.data[0] - return f() forwards every value f returns"
+}
+
+// c01R33: found through the round-6 report on C01 (D3). With one operand _return only ever
+// stored f.data[0]: func g() (IS, int) { return f() } with f() ([]int, int) returned the first
+// value and the zero value of the second.
+func c01R33(ic *IC, r *Report) {
+	info := ic.Info
+	fi := ic.fn(r, "_return")
+	if fi == nil {
+		return
+	}
+	dataFld := ic.field("frame", "data")
+	var one *ast.CaseClause
+	ast.Inspect(fi.Decl.Body, func(q ast.Node) bool {
+		sw, ok := q.(*ast.SwitchStmt)
+		if !ok || sw.Tag == nil {
+			return true
+		}
+		if c, ok := unparen(sw.Tag).(*ast.CallExpr); !ok || identOf(c.Fun) == nil || identOf(c.Fun).Name != "len" {
+			return true
+		}
+		for _, st := range sw.Body.List {
+			cc := st.(*ast.CaseClause)
+			for _, e := range cc.List {
+				if bl, ok := unparen(e).(*ast.BasicLit); ok && bl.Value == "1" {
+					one = cc
+				}
+			}
+		}
+		return true
+	})
+	if one == nil {
+		r.Errorf("R01.33: the case of a single operand (switch over the number of operands) was not found in _return")
+		return
+	}
+	ok := false
+	ast.Inspect(one, func(q ast.Node) bool {
+		fl, isLit := q.(*ast.FuncLit)
+		if !isLit {
+			return true
+		}
+		ast.Inspect(fl.Body, func(z ast.Node) bool {
+			ix, isIx := z.(*ast.IndexExpr)
+			if !isIx || selField(info, ix.X) != dataFld {
+				return true
+			}
+			if _, isConst := unparen(ix.Index).(*ast.BasicLit); !isConst {
+				ok = true
+			}
+			return true
+		})
+		return false
+	})
+	r.Check(ok, "R01.33", "_return/single-operand/can-set-several-results", ic.pos(one.Pos()), "a closure of the single-operand case stores the results by a variable index",
+		"with one operand _return only stores f.data[0]: when the operand is a call returning several values whose first type is not identical to the first result type (so that the call does not store directly), only the first value is returned - type IS []int; func g() (IS, int) { return f() } yields [1 2] 0")
+}
